@@ -1,4 +1,5 @@
 import Jp.Props.C02
+import Jp.Lemmas.C14Helpers
 /-
   C14 — A parse error pinpoints the first offence and keeps the offending input.
   Builds on `C02.parse_eq_spec`.
@@ -8,71 +9,6 @@ open Jp Jp.Spec
 
 -- OBLIGATIONS
 -- no_leading_slash_iff invalid_encoding_offsets report_keeps_input label_inside label_starts_at_tilde
-
-/-! ### helper lemmas -/
-
-theorem rfind_lt (c : Nat) (s : Bytes) (i : Nat) (h : rfind c s = some i) : i < s.length := by
-  induction s generalizing i with
-  | nil => simp [rfind] at h
-  | cons b r ih =>
-    simp only [rfind] at h
-    cases h2 : rfind c r with
-    | some j =>
-      rw [h2] at h; simp at h; subst h
-      have := ih j h2; simp; omega
-    | none =>
-      rw [h2] at h; simp at h
-      obtain ⟨rfl, rfl⟩ := h; simp
-
-theorem rfind_get (c : Nat) (s : Bytes) (i : Nat) (h : rfind c s = some i) : s[i]? = some c := by
-  induction s generalizing i with
-  | nil => simp [rfind] at h
-  | cons b r ih =>
-    simp only [rfind] at h
-    cases h2 : rfind c r with
-    | some j =>
-      rw [h2] at h; simp at h; subst h
-      simpa using ih j h2
-    | none =>
-      rw [h2] at h; simp at h
-      obtain ⟨rfl, rfl⟩ := h; simp
-
-theorem rfind_cons_self_ne_none (c : Nat) (r : Bytes) : rfind c (c :: r) ≠ none := by
-  simp only [rfind]
-  cases rfind c r <;> simp
-
-theorem fbt_get (s : Bytes) (c : Nat) (h : firstBadTilde s = some c) : s[c]? = some 126 := by
-  fun_induction firstBadTilde s generalizing c <;> simp_all
-  all_goals
-    obtain ⟨a, ha, rfl⟩ := h
-    simp_all
-
-/-- what an error of `validate` looks like -/
-theorem validate_err (s : Bytes) (e : ParseError) (h : validate s = .err e) :
-    (e = .noLeadingSlash ∧ s ≠ [] ∧ s.head? ≠ some 47) ∨
-    (∃ c po, s.head? = some 47 ∧ firstBadTilde s = some c ∧ lastSlashAtOrBefore s c = some po ∧
-      e = .invalidEncoding po (c - po) .tilde) := by
-  rw [C02.validate_eq_spec] at h
-  cases s with
-  | nil => simp [parseSpec] at h
-  | cons b r =>
-    by_cases hb : b = 47
-    · subst hb
-      right
-      cases hc : firstBadTilde (47 :: r) with
-      | none => simp [parseSpec, hc] at h
-      | some c =>
-        cases hp : lastSlashAtOrBefore (47 :: r) c with
-        | none =>
-          exact absurd hp (by
-            simp only [lastSlashAtOrBefore, List.take_succ_cons]
-            exact rfind_cons_self_ne_none 47 _)
-        | some po =>
-          simp [parseSpec, hc, hp] at h
-          exact ⟨c, po, by simp, rfl, hp, h.symm⟩
-    · left
-      simp [parseSpec, hb] at h
-      simp [← h, hb]
 
 /-- `NoLeadingSlash` exactly when the non-empty input does not start with `/` -/
 theorem no_leading_slash_iff (s : Bytes) :
